@@ -153,6 +153,12 @@ func Bytes(data any, args ...any) []byte {
 	if wr == nil {
 		wr, _ = writerPool.Get().(*Writer)
 		defer writerPool.Put(wr)
+		// The writer goes back to the pool and can be handed to another
+		// goroutine at once, its buffer must not be returned.
+		b := wr.MustSEN(data)
+		out := make([]byte, len(b))
+		copy(out, b)
+		return out
 	}
 	return wr.MustSEN(data)
 }
